@@ -955,6 +955,8 @@ class Evaluator:
         if name == 'diag' and len(a) == 1 and isinstance(a[0], Rat) and a[0].single_atom() is not None and \
                 a[0].single_atom().name == 'ones':
             return Rat.sym('IDENTITY')
+        if name in ('eye', 'identity') and len(a) == 1 and not kwargs:
+            return Rat.sym('IDENTITY')                 # numpy.eye(n) is diag(ones(n))
         if name == 'square' and len(a) == 1:
             return self.num(a[0]).pow(2)
         if name == 'negative' and len(a) == 1:
